@@ -82,6 +82,25 @@ func fillArgs(sig specSig, n int) []string {
 	return a
 }
 
+// snapshot of the default function table taken at process start, before any Compile call
+var c16BaseKeys = func() map[string]bool {
+	m := map[string]bool{}
+	for k := range funcs.Clone() {
+		m[k] = true
+	}
+	return m
+}()
+var c16BaseSnapshot = tableSnapshot(funcs.Clone())
+
+func tableSnapshot(t funcs.FunctionTable) string {
+	var ks []string
+	for k, fn := range t {
+		ks = append(ks, fmt.Sprintf("%s=%s/%d..%d", k, lib.FuncName(fn.Func), fn.MinArity, fn.MaxArity))
+	}
+	sort.Strings(ks)
+	return strings.Join(ks, ";")
+}
+
 func init() {
 	type cfg struct {
 		name  string
@@ -198,8 +217,25 @@ func init() {
 						}
 					}
 				}},
-				{Name: "binding", N: 2, Note: "every table key x config: implementation name, key is a spec name or documented extension", Run: func(i int, r *core.Rec) {
+				{Name: "binding", N: 2, Note: "every table key x config: implementation name, key is a spec name or documented extension; the default table is the same before and after compiling with every option set", Run: func(i int, r *core.Rec) {
 					c := cfgs[i]
+					// the default table must not depend on the history of Compile calls: compile with every
+					// config (experimental last and first), then compare with the snapshot taken at process start
+					for _, h := range [][]int{{0, 1, 0}, {1, 0}} {
+						for _, ci := range h {
+							lib.Compile("Patient.name.given.join(',')", cfgs[ci].copts()...)
+							core.Try(func() { patch.Compile("Patient.name.given.join(',')", cfgs[ci].copts()...) })
+							r.Eval()
+						}
+						now := tableSnapshot(funcs.Clone())
+						if now != c16BaseSnapshot {
+							r.Fail("default-table-changed-by-compile-history", core.W{"at_process_start": c16BaseSnapshot, "now": now})
+						}
+						probe := lib.Compile("Patient.name.given.join(',')")
+						if _, inBase := c16BaseKeys["join"]; !inBase && probe.CompileErr == nil {
+							r.Fail("experimental-function-accepted-by-default-config-after-history", core.W{"src": probe.Src, "history": fmt.Sprint(h)})
+						}
+					}
 					tbl := c.table()
 					var keys []string
 					for k := range tbl {
